@@ -28,7 +28,11 @@ pub enum Entry {
 #[derive(Clone, Debug, Serialize, Deserialize)]
 pub struct Exec {
     pub hasher: (u8, u64),
-    /// 0 identity, 1 u64 relabelling, 2 fixed-width String relabelling, 3 items with colliding Hash
+    /// 0 identity, 1 u64 relabelling, 2 fixed-width String relabelling, 3 items with colliding Hash,
+    /// 4 different item types on the two sides, 5 old and new are views of ONE
+    /// shared buffer whose items start at the same addresses (Slices: unsized
+    /// `str` items that are prefixes of one buffer; text entries: one text and
+    /// a prefix of the very same allocation)
     pub relabel: u8,
     pub relabel_seed: u64,
     /// run this many times within the same caller (map counter advances)
@@ -162,6 +166,30 @@ impl std::hash::Hash for Coll {
     }
 }
 
+/// Lookup whose items are unsized `str` prefixes ("snapshots") of one shared
+/// buffer: item i is `buf[..lens[i]]`, so every item of both sides starts at
+/// the same address and items differ only in their length.
+pub struct Snap<'a> {
+    pub buf: &'a str,
+    pub lens: Vec<usize>,
+}
+
+impl<'a> std::ops::Index<usize> for Snap<'a> {
+    type Output = str;
+    fn index(&self, i: usize) -> &str {
+        &self.buf[..self.lens[i]]
+    }
+}
+
+/// Largest char boundary of `s` that is <= i.
+fn floor_boundary(s: &str, mut i: usize) -> usize {
+    i = i.min(s.len());
+    while !s.is_char_boundary(i) {
+        i -= 1;
+    }
+    i
+}
+
 #[derive(Debug, PartialEq, Clone)]
 pub struct Outcome {
     pub ops: Vec<Op>,
@@ -169,6 +197,9 @@ pub struct Outcome {
     pub ids: Vec<u32>,
     /// ops of the same text diffed as [u8] (text entries)
     pub bytes_ops: Option<Vec<Op>>,
+    /// shared-buffer mode: how the diff of two views of one allocation
+    /// differed from the diff of separately allocated copies
+    pub shared_mismatch: Option<String>,
 }
 
 /// One execution under the currently installed hasher configuration.
@@ -187,6 +218,7 @@ fn run_once(seq: &SeqCase, entry: Entry, ex: &Exec) -> Result<Outcome, String> {
                                 .collect(),
                             ids: Vec::new(),
                             bytes_ops: None,
+                            shared_mismatch: None,
                         }
                     } else {
                         let ih = IdentifyDistinct::<u32>::new(&o[..], seq.or(), &n[..], seq.nr());
@@ -203,6 +235,7 @@ fn run_once(seq: &SeqCase, entry: Entry, ex: &Exec) -> Result<Outcome, String> {
                             ops: ops_of(&ops),
                             ids,
                             bytes_ops: None,
+                            shared_mismatch: None,
                         }
                     }
                 }};
@@ -228,6 +261,28 @@ fn run_once(seq: &SeqCase, entry: Entry, ex: &Exec) -> Result<Outcome, String> {
                         ops: crate::oracle::unshift_ops(ops_of(&ops), so, sn).unwrap_or_default(),
                         ids: Vec::new(),
                         bytes_ops: None,
+                        shared_mismatch: None,
+                    }
+                }
+                5 => {
+                    // prefixes of one shared buffer as unsized `str` items:
+                    // shorter prefix < longer prefix, so the relabelling keeps
+                    // order and equalities
+                    let mut syms: Vec<u32> = seq.old.iter().chain(seq.new.iter()).copied().collect();
+                    syms.sort();
+                    syms.dedup();
+                    let unit = ["a", "\u{e9}", "ab"][(ex.relabel_seed % 3) as usize];
+                    let buf = unit.repeat(syms.len() + 1);
+                    let len_of = |x: &u32| (syms.binary_search(x).unwrap() + 1) * unit.len();
+                    let o = Snap { buf: &buf, lens: seq.old.iter().map(len_of).collect() };
+                    let n = Snap { buf: &buf, lens: seq.new.iter().map(len_of).collect() };
+                    let ops = capture_diff(alg, &o, seq.or(), &n, seq.nr());
+                    let (so, sn) = (seq.old_range.0, seq.new_range.0);
+                    Outcome {
+                        ops: crate::oracle::unshift_ops(ops_of(&ops), so, sn).unwrap_or_default(),
+                        ids: Vec::new(),
+                        bytes_ops: None,
+                        shared_mismatch: None,
                     }
                 }
                 2 => {
@@ -266,10 +321,55 @@ fn run_once(seq: &SeqCase, entry: Entry, ex: &Exec) -> Result<Outcome, String> {
                     ops_of(cfg.diff_chars(ot.as_bytes(), nt.as_bytes()).ops()),
                 ),
             };
+            let mut shared_mismatch = None;
+            if ex.relabel == 5 {
+                // one allocation, two views with the same start: the full text
+                // and a prefix of it (either one as the old side)
+                let buf = if ex.relabel_seed & 1 == 0 { &nt } else { &ot };
+                let cut = match (ex.relabel_seed >> 1) % 4 {
+                    0 => buf.trim_end().len(),
+                    1 => floor_boundary(buf, buf.len().saturating_sub(1)),
+                    2 => floor_boundary(buf, buf.len().saturating_sub(1 + ((ex.relabel_seed >> 8) % 7) as usize)),
+                    _ => floor_boundary(buf, ((ex.relabel_seed >> 8) as usize) % (buf.len() + 1)),
+                };
+                let (full, part): (&str, &str) = (buf.as_str(), &buf[..cut]);
+                let full_copy = String::from(full);
+                let part_copy = String::from(part);
+                let swap = (ex.relabel_seed >> 3) & 1 == 1;
+                macro_rules! pair {
+                    ($f:ident) => {{
+                        let (a, b, ac, bc) = if swap {
+                            (full, part, full_copy.as_str(), part_copy.as_str())
+                        } else {
+                            (part, full, part_copy.as_str(), full_copy.as_str())
+                        };
+                        let shared = ops_of(cfg.$f(a, b).ops());
+                        let shared_b = ops_of(cfg.$f(a.as_bytes(), b.as_bytes()).ops());
+                        let copies = ops_of(cfg.$f(ac, bc).ops());
+                        if shared != copies {
+                            shared_mismatch = Some(format!(
+                                "views {:?} / {:?} of one buffer give {:?}, separately allocated copies give {:?}",
+                                a, b, shared, copies
+                            ));
+                        } else if shared_b != copies {
+                            shared_mismatch = Some(format!(
+                                "[u8] views {:?} / {:?} of one buffer give {:?}, separately allocated copies give {:?}",
+                                a, b, shared_b, copies
+                            ));
+                        }
+                    }};
+                }
+                match entry {
+                    Entry::TextLines => pair!(diff_lines),
+                    Entry::TextWords => pair!(diff_words),
+                    _ => pair!(diff_chars),
+                }
+            }
             Outcome {
                 ops: s_ops,
                 ids: Vec::new(),
                 bytes_ops: Some(b_ops),
+                shared_mismatch,
             }
         }
     })
@@ -292,6 +392,7 @@ const F_ORDER_CHANGED: usize = 8;
 const F_REAL_RANDOMSTATE: usize = 9;
 const F_RELABEL_COLLIDING: usize = 10;
 const F_HETEROGENEOUS: usize = 11;
+const F_SHARED_BUFFER: usize = 12;
 
 impl C20 {
     fn exec_inner(&self, case: &Case, out: &mut RunOut) -> Result<(), Fail> {
@@ -348,6 +449,7 @@ impl C20 {
                     2 => out.faults[F_RELABEL_STRING] += 1,
                     3 => out.faults[F_RELABEL_COLLIDING] += 1,
                     4 => out.faults[F_HETEROGENEOUS] += 1,
+                    5 => out.faults[F_SHARED_BUFFER] += 1,
                     _ => {}
                 }
                 if rep > 0 {
@@ -365,6 +467,12 @@ impl C20 {
                             "exec={} rep={} (hasher {:?}, relabel {}): ops {:?} differ from the reference {:?}",
                             ei, rep, ex.hasher, ex.relabel, r.ops, reference.ops
                         ),
+                    );
+                }
+                if let Some(m) = &r.shared_mismatch {
+                    return fail(
+                        "c20.same_ops_shared_buffer",
+                        format!("exec={} rep={} (hasher {:?}): {}", ei, rep, ex.hasher, m),
                     );
                 }
                 if r.ids != reference.ids {
@@ -431,7 +539,7 @@ impl Prop for C20 {
         "exploration"
     }
     fn rule(&self) -> &'static str {
-        "cases drawn from the run seed (algorithm, sequence pair favouring many items unique on both sides in permuted order and >100 tokens, sub-ranges, entry point: capture_diff_slices / capture_diff over IdentifyDistinct lookups / TextDiff lines, words, chars); one reference execution (identity labels, SipHash key 0) and R further executions, each with a drawn hasher kind and key per logical caller (keyed, reversed, rotated, low-entropy, degenerate), a drawn order-preserving injective relabelling into u64 or fixed-width Strings, and repetitions inside one caller (per-map key advances as in RandomState). All executions must return the reference ops (and integer ids); text diffs of str and of the same bytes as [u8] must agree. evaluations = executions; distinct non-trivial = distinct cases in which the iteration order of at least one hash map (observed in unique() before its sort) actually differed from the reference execution"
+        "cases drawn from the run seed (algorithm, sequence pair favouring many items unique on both sides in permuted order and >100 tokens, sub-ranges, entry point: capture_diff_slices / capture_diff over IdentifyDistinct lookups / TextDiff lines, words, chars); one reference execution (identity labels, SipHash key 0) and R further executions, each with a drawn hasher kind and key per logical caller (keyed, reversed, rotated, low-entropy, degenerate), a drawn order-preserving injective relabelling (u64, fixed-width Strings, items with colliding hashes, different item types on the two sides, unsized str items that are prefixes of ONE shared buffer so that all items start at the same address), for text entries also the text against a prefix view of the very same allocation compared with separately allocated copies, and repetitions inside one caller (per-map key advances as in RandomState). All executions must return the reference ops (and integer ids); text diffs of str and of the same bytes as [u8] must agree. evaluations = executions; distinct non-trivial = distinct cases in which the iteration order of at least one hash map (observed in unique() before its sort) actually differed from the reference execution"
     }
     fn fault_names(&self) -> Vec<&'static str> {
         vec![
@@ -447,6 +555,7 @@ impl Prop for C20 {
             "real_RandomState_on_fresh_thread(unjudged)",
             "relabel_colliding_hash(unequal items, equal hashes)",
             "different_item_types_on_the_two_sides(unrelated hashes)",
+            "old_and_new_are_views_of_one_shared_buffer(items start at the same addresses)",
         ]
     }
     fn components(&self) -> Value {
@@ -517,9 +626,22 @@ impl Prop for C20 {
             .map(|_| Exec {
                 hasher: draw_hasher(rng, allow_deg),
                 relabel: match entry {
-                    Entry::Slices => rng.below(5) as u8,
+                    Entry::Slices => {
+                        let k = rng.below(6) as u8;
+                        if k == 5 && seq.old.len() + seq.new.len() > 6000 {
+                            1
+                        } else {
+                            k
+                        }
+                    }
                     Entry::Distinct => rng.below(4) as u8,
-                    _ => 0,
+                    _ => {
+                        if rng.chance(1, 4) {
+                            5
+                        } else {
+                            0
+                        }
+                    }
                 },
                 relabel_seed: rng.next(),
                 repeats: if rng.chance(1, 4) { 2 } else { 1 },
